@@ -575,6 +575,27 @@ def rule_reader_guards(ctx, rule_accept, rule_offsets):
                   message=f"offset cache entry `{norm(t)}` is not computed as offset[n] + len(line) "
                           f"(got `{norm(n.ast.value)}`)",
                   how="offset[n+1] = offset[n] + len(line)", where=where(f, n.ast))
+    # an offset that stays in the cache belongs to a line that was seen complete: from the store,
+    # every way to the next iteration / the exit either removes the entry again or has taken the
+    # "ends with newline" edge - also for lines that are only skipped (number below the requested one)
+    nl_edges = []
+    for t in g.stmt_nodes():
+        if t.kind == "test":
+            pol = edges_where(resolve(t.expr, defs), atom_endswith)
+            for k, m in t.succ:
+                if pol.get(k) is True:
+                    nl_edges.append((t, k, m))
+    for n, t in stores:
+        starts = [m for k, m in n.succ if NORMAL(n, k, m)]
+        r = g.reachable(starts, avoid_nodes=dels + [n], avoid_edges=nl_edges, edge_ok=NORMAL)
+        bad = head in r or g.exit in r
+        ctx.check(bool(nl_edges) and not bad, rule_offsets, f.short, "kept-offset-is-of-complete-line",
+                  message="an offset-cache entry survives an iteration although the line it was computed from was never tested for its "
+                          "trailing newline (a partly written record that is only skipped leaves an end offset in the middle of the record: "
+                          "later reads of this backend object seek there and fail, a fresh reader does not)",
+                  how="from the cache store, every path to the next iteration or the exit passes `del offset[n+1]` or the newline-complete edge",
+                  witness=g.witness([head, g.exit], guards=dels + [n], edges=nl_edges, src=starts[0], edge_ok=NORMAL) if bad and starts else None,
+                  where=where(f, n.ast))
     # only lines inside the size snapshot may be entered into the cache (a line that reaches beyond
     # the snapshot may be the first chunk of an append still in progress: its length is not final)
     acc_sz = []
